@@ -109,6 +109,10 @@ def import_spellings(q):
            ("importlib_kw", f"import importlib\nimportlib.import_module(name='{q}')\n"),
            # the other arguments of the import functions do not change WHICH module is imported (seeded change C01-m15 matched `module.item` for each fromlist entry
            # instead of the module)
+           # the builtin under its own name, bound explicitly: still the import function (seeded change C01-m18 recognised `__import__` by the alias-resolved
+           # name, which `from builtins import __import__` turns into `builtins.__import__`)
+           ("dunder_import_from_builtins", f"from builtins import __import__\n__import__('{q}')\n"),
+           ("dunder_import_builtins_attr_bound", f"import builtins\n__import__ = builtins.__import__\n__import__('{q}')\n"),
            ("dunder_import_fromlist_kw", f"__import__('{q}', fromlist=['thing'])\n"),
            ("dunder_import_fromlist_tuple", f"__import__('{q}', fromlist=('alpha', 'beta'))\n"),
            ("dunder_import_five_args", f"__import__('{q}', globals(), locals(), ['thing'], 0)\n"),
